@@ -68,6 +68,12 @@ func (streamBytes) AsString() (string, error) {
 	return mixins.Bytes{TypeName: "bytes"}.AsString()
 }
 func (n streamBytes) AsBytes() ([]byte, error) {
+	// Always read from the start: the underlying reader is shared by every read
+	// of this node (and is handed out by AsLargeBytes), so its position is
+	// wherever the previous reader left it.
+	if _, err := n.Seek(0, io.SeekStart); err != nil {
+		return nil, err
+	}
 	return io.ReadAll(n)
 }
 func (streamBytes) AsLink() (datamodel.Link, error) {
